@@ -421,3 +421,19 @@ Proof.
   - repeat (constructor; [simpl; intuition discriminate|]). constructor.
   - constructor.
 Qed.
+
+(* the argument list of `go build` does not depend on the order in which the file system lists the directory *)
+Lemma compile_args_order out ldflags selected entries entries' :
+  Permutation entries entries' -> NoDup entries ->
+  compile_args out ldflags selected entries = compile_args out ldflags selected entries'.
+Proof.
+  intros P Hnd. unfold compile_args, magefile_list.
+  rewrite (sort_canonical (fun s => s) entries entries' P); auto. now rewrite map_id.
+Qed.
+
+Lemma compile_args_example :
+  compile_args "out" "" (fun s => negb (String.eqb s "go.mod")) ["m1.go"; "go.mod"; "alpha.go"; "Zeta.go"] =
+    ["build"; "-o"; "out"; "Zeta.go"; "alpha.go"; "m1.go"; "mage_output_file.go"] /\
+  compile_args "out" "-s" (fun s => negb (String.eqb s "go.mod")) ["Zeta.go"; "alpha.go"; "go.mod"; "m1.go"] =
+    ["build"; "-o"; "out"; "-ldflags"; "-s"; "Zeta.go"; "alpha.go"; "m1.go"; "mage_output_file.go"].
+Proof. vm_compute. split; reflexivity. Qed.
